@@ -87,6 +87,61 @@ func init() {
 			summaries["(encoding/binary."+e+")."+m] = pure
 		}
 	}
+	// append-like helpers: the result is the first slice argument extended (possibly in place) or
+	// a fresh array holding its bytes.
+	appendLike := func(idx int) summary {
+		return func(c *fc, site ssa.CallInstruction, callee *ssa.Function, args []ssa.Value) {
+			v := site.Value()
+			if v == nil || idx >= len(args) {
+				return
+			}
+			s := args[idx]
+			res := c.node(v)
+			c.a.addCopy(res, c.node(s))
+			o := c.site(v, "", v.Type())
+			c.a.addAddr(res, Loc{o, ""})
+			c.effect(EffAppendInPlace, s, "[*]", site, callee.Name()+" may write into the spare capacity of its slice operand")
+			c.a.byteFlows = append(c.a.byteFlows, byteFlow{src: c.node(s), dst: res})
+			for i, other := range args {
+				if i != idx {
+					if _, isSl := other.Type().Underlying().(*types.Slice); isSl {
+						c.a.byteFlows = append(c.a.byteFlows, byteFlow{src: c.node(other), dst: res})
+					}
+				}
+			}
+		}
+	}
+	for _, e := range []string{"bigEndian", "littleEndian"} {
+		for _, m := range []string{"AppendUint16", "AppendUint32", "AppendUint64"} {
+			summaries["(encoding/binary."+e+")."+m] = appendLike(1)
+		}
+	}
+	summaries["encoding/binary.Append"] = appendLike(0)
+	for _, m := range []string{"slices.Grow", "slices.Insert", "slices.Delete", "slices.Clip", "slices.Concat", "slices.Compact"} {
+		summaries[m] = appendLike(0)
+	}
+	// copies: a fresh array holding the bytes of the arguments
+	cloneLike := func(c *fc, site ssa.CallInstruction, callee *ssa.Function, args []ssa.Value) {
+		c.freshResults(site, callee)
+		if v := site.Value(); v != nil {
+			for _, a := range args {
+				if _, isSl := a.Type().Underlying().(*types.Slice); isSl {
+					c.a.byteFlows = append(c.a.byteFlows, byteFlow{src: c.node(a), dst: c.node(v)})
+				}
+			}
+		}
+	}
+	for _, m := range []string{"bytes.Clone", "slices.Clone", "bytes.Repeat", "bytes.Join", "bytes.ToUpper", "bytes.ToLower"} {
+		summaries[m] = cloneLike
+	}
+	// read-only helpers
+	for _, m := range []string{"bytes.Equal", "bytes.Compare", "bytes.Index", "bytes.IndexByte", "bytes.LastIndex", "bytes.LastIndexByte",
+		"bytes.Contains", "bytes.HasPrefix", "bytes.HasSuffix", "bytes.Count", "bytes.IndexAny", "bytes.IndexFunc", "bytes.ContainsAny",
+		"slices.Equal", "slices.Contains", "slices.Index", "slices.IndexFunc", "slices.ContainsFunc", "slices.Max", "slices.Min",
+		"slices.BinarySearch", "slices.IsSorted", "slices.Compare", "(encoding/binary.bigEndian).GoString", "(encoding/binary.littleEndian).GoString",
+		"encoding/binary.Size"} {
+		summaries[m] = pure
+	}
 	// io ----------------------------------------------------------------------------------
 	for _, m := range []string{"io.ReadFull", "io.ReadAtLeast"} {
 		summaries[m] = func(c *fc, site ssa.CallInstruction, callee *ssa.Function, args []ssa.Value) {
